@@ -581,7 +581,13 @@ func C19(r *vf.Run) {
 					for i := range buf {
 						buf[i] = 0xCC
 					}
-					e := asm.NewEmitter(buf[:capacity:capacity], listing)
+					// the target is a window of the caller's buffer: cut with or without spare capacity behind
+					// it (the 8 guard bytes); what the emitter may fill is its length either way
+					target := buf[:capacity:capacity]
+					if capacity%2 == 1 || g.Intn(3) == 0 {
+						target = buf[:capacity]
+					}
+					e := asm.NewEmitter(target, listing)
 					sh := newShadow(listing)
 					before0 := r.Violations()
 					labelOperandAt := map[int]bool{} // buffer offsets of operand bytes of accepted label-taking calls
